@@ -401,7 +401,8 @@ def call_task(mod, fname, arg, acc):
             except StopTask:
                 pass
             acc.caps.append(f'{fname}: aborted by an exception from the library')
-        elif isinstance(e, (ValueError, IndexError)) and any(t in str(e) for t in ('broadcast', 'shapes', 'dimension', 'out of bounds', 'index')) and inner is not None:
+        elif inner is not None and ((isinstance(e, (ValueError, IndexError)) and any(t in str(e) for t in ('broadcast', 'shape', 'dimension', 'out of bounds', 'index', 'axis', 'size', 'zero-size', 'empty')))
+                                    or (isinstance(e, (TypeError, AttributeError)) and 'NoneType' in str(e))):
             # the comparison code itself tripped over the SHAPE of something the library returned (an array of another length
             # than the reference): that is a behaviour of the code under test, not a defect of the harness; reported, replayable
             try:
